@@ -184,6 +184,9 @@ func derivedSetSystem() *hist.System {
 		}
 		ops = append(ops, op{"inherit", src, nil}, op{"unsubscribe", src, nil})
 		names = append(names, fmt.Sprintf("InheritFrom(s%d)", src), fmt.Sprintf("unsubscribe(s%d)", src))
+		// one batch that names the same element as added and as deleted (the set adds first, then deletes)
+		ops = append(ops, op{"apply+-", src, []int{1}})
+		names = append(names, fmt.Sprintf("s%d.Apply(+1,-1)", src))
 	}
 	return &hist.System{Name: "derivedset+subtract", Alphabet: names, Merge: true, MaxDepth: 10, New: func() hist.Instance {
 		src := []reactive.Set[int]{reactive.NewSet[int](), reactive.NewSet[int]()}
@@ -213,6 +216,8 @@ func derivedSetSystem() *hist.System {
 					src[o.src].Delete(o.arg[0])
 				case "replace":
 					src[o.src].Replace(ds.NewSet(o.arg...))
+				case "apply+-":
+					src[o.src].Apply(ds.NewSetMutations[int]().WithAddedElements(ds.NewSet(o.arg...)).WithDeletedElements(ds.NewSet(o.arg...)))
 				case "inherit":
 					unsub[o.src] = d.InheritFrom(src[o.src])
 				case "unsubscribe":
